@@ -32,6 +32,7 @@ structure Outcome where
   model : String
   spec  : Option (Except String Unit) := none
   tags  : List String := []
+  same  : Option Bool := none   -- overrides the default whole-answer comparison
 
 def specOk : Option (Except String Unit) := some (.ok ())
 def specFail (why : String) : Option (Except String Unit) := some (.error why)
